@@ -632,6 +632,149 @@ func c07OddMapKeys(c *rt.Ctx, sub0 int) {
 	}
 }
 
+// c07MapElemSizes: the Go runtime keeps map keys and values larger than 128 bytes behind a pointer,
+// and the decoder chooses between the runtime's string-key fast path (which hands out the value slot)
+// and the generic assignment by the value's size. Value sizes on both sides of that limit and of
+// every multiple of 256 (a size kept in one byte would wrap there), with string-kind and integer
+// keys, one member and more members than one bucket holds; every member is read back after a
+// collection and a burst of allocations.
+type c07NamedStr string
+
+func c07MapElemSizes(c *rt.Ctx, sub0 int) {
+	words := []int{1, 2, 15, 16, 17, 18, 31, 32, 33, 34, 40, 47, 48, 49, 63, 64, 65, 66, 80, 96, 97, 128, 129}
+	keys := []reflect.Type{reflect.TypeOf(""), reflect.TypeOf(c07NamedStr("")), reflect.TypeOf(0), reflect.TypeOf(uint8(0))}
+	sub := sub0
+	for _, w := range words {
+		for ki, kt := range keys {
+			for _, members := range []int{1, 3, 11} {
+				if ki >= 2 && members == 3 {
+					continue
+				}
+				sub++
+				// value: [w]uint64, or for odd w a struct{ P *int; A [w-1]uint64 } (pointer-bearing)
+				var vt reflect.Type
+				ptrBearing := w%2 == 1 && w > 1
+				if ptrBearing {
+					vt = reflect.StructOf([]reflect.StructField{{Name: "P", Type: reflect.TypeOf((*int)(nil))}, {Name: "A", Type: reflect.ArrayOf(w-1, reflect.TypeOf(uint64(0)))}})
+				} else {
+					vt = reflect.ArrayOf(w, reflect.TypeOf(uint64(0)))
+				}
+				mt := reflect.MapOf(kt, vt)
+				var sb strings.Builder
+				sb.WriteByte('{')
+				for m := 0; m < members; m++ {
+					if m > 0 {
+						sb.WriteByte(',')
+					}
+					fmt.Fprintf(&sb, `"%d":`, m+1)
+					n := w
+					if ptrBearing {
+						fmt.Fprintf(&sb, `{"P":%d,"A":`, 1000+m)
+						n = w - 1
+					}
+					sb.WriteByte('[')
+					for i := 0; i < n; i++ {
+						if i > 0 {
+							sb.WriteByte(',')
+						}
+						fmt.Fprintf(&sb, "%d", (m+1)*100000+i)
+					}
+					sb.WriteByte(']')
+					if ptrBearing {
+						sb.WriteByte('}')
+					}
+				}
+				sb.WriteByte('}')
+				doc := sb.String()
+				if !c.Cur(sub, fmt.Sprintf("shapes=core\ntype: %s (value size %d)\ndoc: %d members", mt.String(), vt.Size(), members)) {
+					continue
+				}
+				for _, stream := range []bool{false, true} {
+					dst := reflect.New(mt)
+					var err error
+					pan, msg, _ := rt.Guard(func() {
+						if stream {
+							err = gojson.NewDecoder(strings.NewReader(doc)).Decode(dst.Interface())
+						} else {
+							err = gojson.Unmarshal([]byte(doc), dst.Interface())
+						}
+					})
+					c.Eval(1)
+					entry := "Unmarshal"
+					if stream {
+						entry = "Decoder.Decode"
+					}
+					ctx := fmt.Sprintf("map-value-size:%d:key-%s", vt.Size(), kt.Kind())
+					if pan {
+						c.Violate(rt.Violation{Monitor: "well-formed", Entry: entry, Kind: "panic:" + rt.PanicClass(msg), Ctx: ctx, Detail: mt.String() + ": " + msg, Sub: sub})
+						continue
+					}
+					if err != nil {
+						c.Violate(rt.Violation{Monitor: "well-formed", Entry: entry, Kind: "valid-doc-rejected", Ctx: ctx, Detail: mt.String() + ": " + err.Error(), Sub: sub})
+						continue
+					}
+					// churn the size classes around the value size, collect, then read everything back
+					runtime.GC()
+					var keep [][]byte
+					for _, n := range []int{8, 16, int(vt.Size()), int(vt.Size()) + 8, 208} {
+						for i := 0; i < 64; i++ {
+							b := make([]byte, n)
+							for j := range b {
+								b[j] = 0xEE
+							}
+							keep = append(keep, b)
+						}
+					}
+					runtime.GC()
+					c07Sink += keep[len(keep)-1][0]
+					bad := ""
+					mv := dst.Elem()
+					if mv.Len() != members {
+						bad = fmt.Sprintf("%d members, want %d", mv.Len(), members)
+					}
+					for m := 0; m < members && bad == ""; m++ {
+						k := reflect.New(kt).Elem()
+						switch kt.Kind() {
+						case reflect.String:
+							k.SetString(fmt.Sprint(m + 1))
+						case reflect.Int:
+							k.SetInt(int64(m + 1))
+						default:
+							k.SetUint(uint64(m + 1))
+						}
+						e := mv.MapIndex(k)
+						if !e.IsValid() {
+							bad = fmt.Sprintf("member %d missing", m+1)
+							break
+						}
+						arr := e
+						if ptrBearing {
+							pp := e.Field(0)
+							if pp.IsNil() || pp.Elem().Int() != int64(1000+m) {
+								bad = fmt.Sprintf("member %d: P does not point to %d", m+1, 1000+m)
+								break
+							}
+							arr = e.Field(1)
+						}
+						for i := 0; i < arr.Len(); i++ {
+							if arr.Index(i).Uint() != uint64((m+1)*100000+i) {
+								bad = fmt.Sprintf("member %d element %d = %d, want %d", m+1, i, arr.Index(i).Uint(), (m+1)*100000+i)
+								break
+							}
+						}
+					}
+					if bad != "" {
+						c.Violate(rt.Violation{Monitor: "well-formed", Entry: entry, Kind: "map-value-corrupted", Ctx: ctx, Detail: mt.String() + ": " + bad, Sub: sub})
+					}
+					c.Obs("map_elem_size_decodes", 1)
+				}
+				c.NonTrivial("mapelem", mt.String(), fmt.Sprint(members))
+				c.SetAdd("map_value_sizes", fmt.Sprint(vt.Size()))
+			}
+		}
+	}
+}
+
 // c07Embedded: promoted members of embedded nil pointers make the decoder allocate the embedded
 // object. It must have the embedded type's size and pointer layout: the members are written,
 // a collection and a burst of same-sized allocations follow, and the members are read back.
@@ -942,6 +1085,9 @@ func init() {
 				}
 				if k == 11 && c.Idx%64 == 4 {
 					c07AfterErrors(c, 800000)
+				}
+				if k == 11 && c.Idx%64 == 5 {
+					c07MapElemSizes(c, 900000)
 				}
 				if k == 0 {
 					c.Sample(map[string]any{"type": t.String(), "docs": len(docs), "example_doc": docs[len(docs)/2][0], "fields": descs})
